@@ -126,7 +126,7 @@ func Parse(src string, style Style) (res ParseResult) {
 	return ParseResult{AST: n, Static: p.static, U: p.u}
 }
 
-func (p *parser) cur() token  { return p.toks[p.pos] }
+func (p *parser) cur() token { return p.toks[p.pos] }
 func (p *parser) peek(k int) token {
 	if p.pos+k < len(p.toks) {
 		return p.toks[p.pos+k]
